@@ -258,6 +258,8 @@ def run_case(chk, ob, ip, prog, case, props, extra_judge=None):
         settings_over = {}
         if case.plugins:
             settings_over['query_parser_enabled'] = BV(1, 1)
+            # (plugins ARE configured for the pool; what they say is the stub's business)
+            settings_over['plugins'] = some(ip_, Opaque('Plugins', 'configured'))
         if case.pool_parser:
             settings_over['query_parser_enabled'] = BV(1, 1)
             settings_over['default_role'] = some(ip_, ip_.make_enum('Role', 'Primary' if case.pool_parser == 'primary' else 'Replica'))
@@ -282,6 +284,13 @@ def run_case(chk, ob, ip, prog, case, props, extra_judge=None):
         verdicts = {}
         if case.plugins:
             env.plugin_verdicts = case.plugins
+            if case.plugins == 'deny-t1':
+                # the plugin configuration is fixed (table t1 is listed): what each statement's verdict IS does not depend on whether the pooler asks
+                seen_ = {}
+                for k_, m_ in enumerate(msgs):
+                    cm_ = HE.conc(m_)
+                    if cm_ is not None and cm_[:1] in (b'Q', b'P'):
+                        verdicts[seen_.setdefault(cm_, k_)] = 1 if b'FROM t1' in cm_ else 0
             install_plugin_stubs(ip_, env, msgs, verdicts)
         try:
             env.run()
@@ -830,6 +839,9 @@ def effective_script(script, verdicts, cache_on=False):
             if name and name in rejected_names:
                 return eff, denied
         if c == 'Q':
+            cm_ = HE.conc(m)
+            if cm_ is not None and any(rx.match(cm_[5:-1]) for _n, rx in CMD_RX):
+                continue            # one of the pooler's own commands: answered by the pooler, never forwarded
             (denied if bad else eff).append(m)
         elif c in 'PBDEC':
             batch.append(m)
